@@ -24,7 +24,8 @@ import CSD.Spec
 
 namespace CSD.FM
 
-abbrev Sym := Nat
+/-- Symbols are plain naturals (a notation, so that arithmetic tactics see `Nat`). -/
+scoped notation "Sym" => Nat
 
 /-- A row of the conceptual suffix array: the symbol preceding the suffix in the
 text (`none` for the whole text) and the suffix. -/
